@@ -52,3 +52,22 @@ Theorem C01_solution_unique : forall V (sem : N -> V -> V -> V -> V -> V) (zero 
   solution sem zero c stim v1 -> solution sem zero c stim v2 ->
   forall l, l < List.length (c_lines c) -> v1 l = v2 l.
 Proof. intros V sem zero. exact (KV.Proofs.SemProofs.solution_unique sem zero). Qed.
+
+(** 2-valued reading: at every interface line the stimulus (inverted at a flip-flop's second output), at every fork
+    output the fork's input, at every gate output the PRIMITIVE'S BOOLEAN FUNCTION of its pin values (unconnected = 0) *)
+From KV Require Proofs.SemCompose.
+Theorem C01_logic2_gate_by_gate : forall c (stim : nat -> bool), wf_netlist c -> comb_acyclic c ->
+  let v := iexec sem_lut (fun x => x) (build_ops c false) (init_env false c stim) in
+  forall n, n < List.length (c_nodes c) ->
+    let nd := get_node c n in
+    match iface_pos c n with
+    | Some p => (forall o, pin (n_outs nd) 0 = Some o -> v o = stim p) /\
+                (is_dff nd = true -> forall o, pin (n_outs nd) 1 = Some o -> v o = negb (stim p)) /\
+                (is_dff nd = false -> forall k o, 0 < k -> pin (n_outs nd) k = Some o -> v o = stim p)
+    | None => if is_fork nd then forall k o, pin (n_outs nd) k = Some o -> v o = pinv false v (n_ins nd) 0
+              else forall p sp, lut_of p = Some sp ->
+                     select_lut kind_prefixes (n_kind nd) (negb (is_some (pin (n_ins nd) 2))) (negb (is_some (pin (n_ins nd) 3))) = Some sp ->
+                     forall o, pin (n_outs nd) 0 = Some o ->
+                       v o = prim_fn p (pinv false v (n_ins nd) 0) (pinv false v (n_ins nd) 1) (pinv false v (n_ins nd) 2) (pinv false v (n_ins nd) 3)
+    end.
+Proof. exact KV.Proofs.SemCompose.logic2_gate_by_gate. Qed.
